@@ -17,6 +17,7 @@ Open Scope Z_scope.
 
 Definition E_TIME_AHEAD : nat := 13.   (* strict mode: the script time is ahead of the statement's time *)
 Definition P_NOLABEL : nat := 14.
+Definition E_SILENT_WAIT : nat := 16.  (* strict mode: a statement that compiles to no instruction (scope end, empty statement) is the first at its time *)
 Definition E_NAN_CMP : nat := 15.      (* strict mode: a comparison in a condition has a NaN operand *)      (* AstVm: "tried to jump to {} but this label did not exist" *)
 
 Record pst := mkpst {
@@ -104,6 +105,9 @@ Section Prog.
     | _ => true
     end.
 
+  (* statements that compile to no instruction or label: the compiled code cannot wait for their time *)
+  Definition is_silent (s : sstmt) : bool := match s with SScopeEnd _ | SNop => true | _ => false end.
+
   Definition mode_of (j : option (label * option Z)) : mode :=
     match j with Some (l, jt) => Seek l jt | None => Exec end.
   Definition logged (lg : option (Z * list value)) (st : pst) : pst :=
@@ -139,6 +143,16 @@ Section Prog.
     | SScopeEnd d => Ok (update m (VLoc d) (default_of (lty d)), None, None)
     end.
 
+  (* scope markers are lexical, as RegAlloc/RegFree are in the lowered stream: a statement that is passed over
+     (while seeking a label, or because it is disabled on this difficulty) still resets the locals it declares
+     or ends to the default value (a local outside its scope is unobservable) *)
+  Definition sseek (s : sstmt) (m : mem) : mem :=
+    match s with
+    | SDecl t vars => fold_left (fun m x => update m (VLoc (fst x)) (default_of t)) vars m
+    | SScopeEnd d => update m (VLoc d) (default_of (lty d))
+    | _ => m
+    end.
+
   Fixpoint sblk (body : list (Z * Z * sstmt)) (md : mode) (st : pst) : outcome (mode * pst) :=
     match body with
     | [] => Ok (md, st)
@@ -147,13 +161,14 @@ Section Prog.
         | Seek l jt =>
             match s with
             | SLabel l' => if label_eqb l l' then sblk rest Exec (arrive t jt st) else sblk rest md st
-            | _ => sblk rest md st
+            | _ => sblk rest md (set_mem st (sseek s (p_mem st)))
             end
         | Exec =>
             if strict && (t <? p_time st) then Err E_TIME_AHEAD
+            else if strict && is_silent s && (p_time st <? t) then Err E_SILENT_WAIT
             else
               let st1 := wait t st in
-              if negb (runs dsel mask) then sblk rest Exec st1
+              if negb (runs dsel mask) then sblk rest Exec (set_mem st1 (sseek s (p_mem st1)))
               else if strict && negb (stmt_nonan s (p_mem st1)) then Err E_NAN_CMP
               else
                 match sstep s (p_mem st1) with
